@@ -18,7 +18,7 @@ EXPLANATION = ("Pairs of models built in one process from the same symbolic para
                "spatial acceleration of every body, u and udot are preserved (gravity and mobility forces applied). (b) FunctionBased mobilizers (MobilizedBody::Custom "
                "bridge) mirroring Pin, Slider, Universal, Cylinder, Planar, Gimbal, Bushing, Translation versus the built-in ones: same poses, velocities, accelerations, "
                "reaction forces, qdot, udot, energies.")
-BOUNDS = ("(d) trees of 1-3 bodies from the catalogue (8 quick / 42 thorough), (c) Y = 7 mobilizer types quick, 15 thorough (Euler and quaternion; not Screw and "
+BOUNDS = ("(d) trees of 1-3 bodies from the catalogue (6 quick / 42 thorough), (c) Y = 7 mobilizer types quick, 15 thorough (Euler and quaternion; not Screw and "
           "CantileverFreeBeam), (a) 6 quick / 15 thorough trees of 1-3 bodies containing quaternion mobilizers, each in both directions, the unit quaternions parametrised by "
           "three half angles, (b) FunctionBased mirrors of Pin, Slider, Universal, Cylinder, Planar, Gimbal, Bushing, Translation alone, under a Pin and over a Pin, forward and "
           "reversed; all linearly occurring inputs (u, gravity, applied forces, mobility forces) free plus k coordinates at a time (1 quick / 2 thorough; (a): accelerations "
@@ -40,7 +40,7 @@ def instances(tier, seed):
     pick = [s for s in specs if s[0].startswith(("2:", "3"))]
     ones = [s for s in specs if s[0].startswith("1:")]
     rng.shuffle(ones)
-    pick = pick[:5 if tier == "quick" else 30] + ones[:3 if tier == "quick" else 12]
+    pick = pick[:4 if tier == "quick" else 30] + ones[:2 if tier == "quick" else 12]
     for n, spec, e in pick:
         out.append(dict(name="weld:" + n, harness="C06_weldoffset.cpp", args=[spec, "1" if e else "0"]))
     # (c) direction: reversed mobilizer with swapped roles
